@@ -545,11 +545,11 @@ def takeDoc : List Line → List Line × List Line
     if isDocStart l || isDocEnd l then ([], l :: ls)
     else let (a, b) := takeDoc ls; (l :: a, b)
 
-def fuelOf (ls : List Line) : Nat := (ls.foldl (fun a l => a + l.txt.length + 2) 0) * 2 + 8
+def fuelOf (ls : List Line) : Nat := (ls.foldl (fun a l => a + l.txt.length + 2) 0) * 4 + 8
 
 /-- One document body: lines (first line possibly the rest of the `---` line at a virtual column). -/
 def parseDocBody (first : Option Str) (ls : List Line) : R Node :=
-  let fuel := fuelOf ls + (first.getD []).length * 2
+  let fuel := fuelOf ls + (first.getD []).length * 4
   let r := match first with
     | some t => parseAfter fuel t 3 0 false false ls
     | none => parseBlock fuel 0 false ls
